@@ -61,6 +61,9 @@ func (g *tmplGen) printable() string {
 }
 
 func (g *tmplGen) mixture() string {
+	if g.r.Chance(4) {
+		return "" // an empty directive value: the empty string, not its quotes
+	}
 	var sb strings.Builder
 	parts := 1 + g.r.Intn(3)
 	for i := 0; i < parts; i++ {
